@@ -1,6 +1,7 @@
 from __future__ import annotations
 
 from collections import defaultdict
+import dataclasses
 from dataclasses import dataclass, field
 from functools import partial
 import hashlib
@@ -182,8 +183,19 @@ class ProcessingItemBase:
 
         if self.transformation is not None:
             content.append(str(type(self.transformation).__name__))
-            transformation_dict = getattr(self.transformation, "__dict__", {})
-            content.append(str(sorted(transformation_dict.items())))
+            if dataclasses.is_dataclass(self.transformation):
+                # Only the declared parameters that define the transformation: helper objects that
+                # are derived from them (e.g. compiled templates) and back references have
+                # representations containing memory addresses, generated names (compare=False)
+                # are drawn randomly.
+                parameters = [
+                    (f.name, getattr(self.transformation, f.name, None))
+                    for f in dataclasses.fields(self.transformation)
+                    if f.init and f.repr and f.compare
+                ]
+            else:
+                parameters = sorted(getattr(self.transformation, "__dict__", {}).items())
+            content.append(str(parameters))
 
         if hasattr(self, "rule_conditions") and self.rule_conditions:
             try:
